@@ -3,7 +3,7 @@
    INTEGER_oer.c, OCTET_STRING_oer.c, constr_*_oer.c write); [oer_dec] is the
    reference decoder (accepts long-form length determinants with leading zeros). *)
 From Coq Require Import ZArith List Bool.
-From A1 Require Import Base.Bytes Base.Digits Leaf.IntegerConv Leaf.BerTL Rt.Types Rt.Der Rt.Uper.
+From A1 Require Import Base.Bytes Base.Digits Leaf.IntegerConv Leaf.BerTL Rt.Types Rt.Comb Rt.Der Rt.Uper.
 Import ListNotations.
 Local Open Scope Z_scope.
 
@@ -101,24 +101,8 @@ Fixpoint oer (t : ty) (v : val) {struct t} : option (list Z) :=
       | None => Some (oer_length (zlen bs) ++ bs)
       end
   | TSeq _ ms, VSeq vs =>
-      let preamble :=
-        (fix pre (ms : list ty) (vs : list val) : list bool :=
-           match ms, vs with
-           | m :: ms', v :: vs' =>
-               (if is_opt m then [match v with VNone => false | _ => true end] else []) ++ pre ms' vs'
-           | _, _ => []
-           end) ms vs in
-      match (fix go (ms : list ty) (vs : list val) : option (list Z) :=
-               match ms, vs with
-               | [], [] => Some []
-               | m :: ms', v :: vs' =>
-                   match oer m v, go ms' vs' with
-                   | Some a, Some b => Some (a ++ b)
-                   | _, _ => None
-                   end
-               | _, _ => None
-               end) ms vs with
-      | Some body => Some (bits_to_bytes preamble ++ body)
+      match enc_members oer ms vs with
+      | Some body => Some (bits_to_bytes (presence_bits ms vs) ++ body)
       | None => None
       end
   | TSeqOf _ _ e, VList vs | TSetOf _ _ e, VList vs =>
@@ -127,12 +111,7 @@ Fixpoint oer (t : ty) (v : val) {struct t} : option (list Z) :=
       | None => None
       end
   | TChoice alts, VChoice i v' =>
-      match (fix pick (alts' : list ty) (j : nat) : option (list Z) :=
-               match alts', j with
-               | a :: _, O => oer a v'
-               | _ :: r, S j' => pick r j'
-               | [], _ => None
-               end) alts i with
+      match enc_alt oer v' alts i with
       | Some body => Some (oer_tag (outmost_tag t v) ++ body)
       | None => None
       end
@@ -226,46 +205,11 @@ Fixpoint oer_dec (t : ty) (bs : list Z) {struct t} : option (val * list Z) :=
       end
   | TSeq _ ms =>
       let nopt := length (filter is_opt ms) in
-      let pre_bytes := Z.of_nat ((nopt + 7) / 8) in
-      match take pre_bytes bs with
+      match take (Z.of_nat ((nopt + 7) / 8)) bs with
       | Some (pb, r0) =>
           match take_bits nopt (bytes_bits pb) with
           | Some (pres, _) =>
-              match (fix go (ms : list ty) (pres : list bool) (bs : list Z)
-                       : option (list val * list Z) :=
-                       match ms with
-                       | [] => Some ([], bs)
-                       | m :: ms' =>
-                           match m with
-                           | TOpt t' =>
-                               match pres with
-                               | true :: pres' =>
-                                   match oer_dec t' bs with
-                                   | Some (v, r) =>
-                                       match go ms' pres' r with
-                                       | Some (vs, r') => Some (VSome v :: vs, r')
-                                       | None => None
-                                       end
-                                   | None => None
-                                   end
-                               | false :: pres' =>
-                                   match go ms' pres' bs with
-                                   | Some (vs, r') => Some (VNone :: vs, r')
-                                   | None => None
-                                   end
-                               | [] => None
-                               end
-                           | _ =>
-                               match oer_dec m bs with
-                               | Some (v, r) =>
-                                   match go ms' pres r with
-                                   | Some (vs, r') => Some (v :: vs, r')
-                                   | None => None
-                                   end
-                               | None => None
-                               end
-                           end
-                       end) ms pres r0 with
+              match dec_members_pres oer_dec ms pres r0 with
               | Some (vs, r) => Some (VSeq vs, r)
               | None => None
               end
@@ -276,21 +220,7 @@ Fixpoint oer_dec (t : ty) (bs : list Z) {struct t} : option (val * list Z) :=
   | TSeqOf _ _ e | TSetOf _ _ e =>
       match oer_get_quantity bs with
       | Some (n, r) =>
-          (* every element takes at least... possibly zero octets (NULL): bound the
-             count by what the C accepts, see OerProofs *)
-          match (fix items (k : nat) (bs : list Z) : option (list val * list Z) :=
-                   match k with
-                   | O => Some ([], bs)
-                   | S k' =>
-                       match oer_dec e bs with
-                       | Some (v, r) =>
-                           match items k' r with
-                           | Some (vs, r') => Some (v :: vs, r')
-                           | None => None
-                           end
-                       | None => None
-                       end
-                   end) (Z.to_nat n) r with
+          match dec_items (oer_dec e) (Z.to_nat n) r with
           | Some (vs, r') => Some (VList vs, r')
           | None => None
           end
@@ -298,18 +228,7 @@ Fixpoint oer_dec (t : ty) (bs : list Z) {struct t} : option (val * list Z) :=
       end
   | TChoice alts =>
       match oer_get_tag bs with
-      | Some (tg, r) =>
-          (fix pick (alts' : list ty) (i : nat) : option (val * list Z) :=
-             match alts' with
-             | [] => None
-             | a :: rest =>
-                 if tag_in tg (first_tags a) then
-                   match oer_dec a r with
-                   | Some (v, r') => Some (VChoice i v, r')
-                   | None => None
-                   end
-                 else pick rest (S i)
-             end) alts O
+      | Some (tg, r) => dec_alt oer_dec (fun _ a => tag_in tg (first_tags a)) r alts O
       | None => None
       end
   | TTag _ t' => oer_dec t' bs
